@@ -1,9 +1,13 @@
 (* C09 — Font loading and querying are total on arbitrary bytes (thin partial).  Property theorems only.
    Under theorem: the hand-written places where numbers taken from the file become indices or sizes:
    opentype.NewLoaders (magic dispatch, parseTTCHeader, parseDfont, parseOneFont, parseOTF, parseWOFF),
-   Loader.RawTable / findTableBuffer, tables.ParseLoca + tables.ParseGlyf (slicing), font.newCmap4.
+   Loader.RawTable / findTableBuffer, tables.ParseLoca + tables.ParseGlyf (slicing), font.newCmap4;
+   second batch (Model/TableIndex.v): tables.ParseName + Name.decodeRecord + decodeUtf16, font.loadHVtmx +
+   tables.ParseHmtx + Hmtx.Advance + font.getSideBearing, tables.ParseCmapSubtable6/10/12/13 + newCmap6/10/12/13
+   (sanitizeCmapGroups) + their Lookup; Model/AatLookup.v: the Class methods of the AAT lookup formats 0, 2, 4, 6, 8, 10.
    Everything else of NewFont and of the Face queries is only explored by the fault-injection sweep. *)
 From TV Require Import Model.Container Model.Glyf Model.CmapBuild Spec.Container Spec.Glyf Proofs.Container Proofs.Glyf.
+From TV Require Import Model.TableIndex Proofs.TableIndex Model.AatLookup Proofs.AatLookup.
 
 (* opening ANY byte string as a font or collection returns loaders or an error: no panic, no fuel exhaustion
    (the model has no fuelled loop: every loop is bounded by a count read from the file) *)
@@ -65,6 +69,58 @@ Theorem cmap4_alloc_bounded : forall end_code start_code id_delta id_range_offse
 Proof. exact cmap4_alloc_bounded_lemma. Qed.
 Print Assumptions cmap4_alloc_bounded.
 
+(* 'name': for every byte string, parsing the table then decoding EVERY record (slicing of the string storage by the
+   offset and length of the record, choice of the decoder, UTF-16 unit reads) never slices or indexes out of range *)
+Theorem name_total : forall src, bytes_ok src -> total (name_load_and_decode src).
+Proof. exact name_total_lemma. Qed.
+Print Assumptions name_total.
+
+(* an accepted 'name' table allocated 12 bytes per record, no more than the table itself, and no decoded value has more
+   units than the table has bytes *)
+Theorem name_alloc_bounded : forall src t, bytes_ok src -> parse_name src = Ok t ->
+  12 * zlen (n_records t) <= zlen src /\
+  forall r us, In r (n_records t) -> name_record_units t r = Ok us -> zlen us <= zlen src.
+Proof. exact name_alloc_bounded_lemma. Qed.
+Print Assumptions name_alloc_bounded.
+
+(* hhea/hmtx (and vhea/vmtx): for every pair of byte strings, every glyph count (even negative) and every glyph id,
+   loading the metrics then asking the advance and the side bearing of the glyph never indexes out of range and never
+   calls make() with a negative size *)
+Theorem hmtx_total : forall hhea src num_glyphs gid, bytes_ok hhea -> 0 <= gid ->
+  total (hmtx_query hhea src num_glyphs gid).
+Proof. exact hmtx_total_lemma. Qed.
+Print Assumptions hmtx_total.
+
+(* the metrics built from an accepted table are no larger than the table: 4 bytes per long metric, 2 per side bearing *)
+Theorem hmtx_alloc_bounded : forall hhea src num_glyphs h, bytes_ok hhea ->
+  load_hvmtx hhea src num_glyphs = Ok h -> 4 * zlen (hm_metrics h) + 2 * zlen (hm_lsb h) <= zlen src.
+Proof. exact hmtx_alloc_bounded_lemma. Qed.
+Print Assumptions hmtx_alloc_bounded.
+
+(* cmap subtables of format 6, 10, 12 and 13: for every byte string and every rune (any integer), parsing the subtable,
+   building the Cmap (with sanitizeCmapGroups) and looking the rune up never indexes out of range, and the binary
+   search of formats 12/13 terminates within its fuel (len + 1 iterations) *)
+Theorem cmap_sub_lookup_total : forall src r, bytes_ok src -> total (cmap_sub_lookup src r).
+Proof. exact cmap_sub_lookup_total_lemma. Qed.
+Print Assumptions cmap_sub_lookup_total.
+
+(* what these subtables allocate is bounded by their length: 2 bytes per entry (6, 10), 12 per group (12, 13) *)
+Theorem cmap_sub_alloc_bounded : forall src, bytes_ok src ->
+  (forall c, parse_cmap6 src = Ok c -> 10 + 2 * zlen (c6_entries c) <= zlen src) /\
+  (forall c, parse_cmap10 src = Ok c -> 20 + 2 * zlen (c6_entries c) <= zlen src) /\
+  (forall gs, parse_cmap_groups src = Ok gs ->
+     16 + 12 * zlen gs <= zlen src /\ zlen (sanitize_groups gs) <= zlen gs).
+Proof. exact cmap_alloc_bounded_lemma. Qed.
+Print Assumptions cmap_sub_alloc_bounded.
+
+(* AAT lookup tables (morx, kerx, ankr, ... classes), formats 0, 2, 4, 6, 8, 10: for EVERY lookup value (any segments,
+   in any order, with value arrays of any length; only the 16-bit range of the first glyph of formats 8/10 is assumed,
+   it is a uint16 field) and every 16-bit glyph id, Class never indexes out of range and its searches (sort.Search,
+   the two hand-written binary searches) end within len + 1 iterations *)
+Theorem aat_class_total : forall l g, lookup_wf l -> 0 <= g < 65536 -> total (aat_class l g).
+Proof. exact aat_class_total_lemma. Qed.
+Print Assumptions aat_class_total.
+
 (* ---- non-vacuity ---- *)
 Definition ex_bytes_okb (l : list Z) : bool := forallb (fun b => (0 <=? b) && (b <? 256)) l.
 Lemma ex_bytes_ok l : ex_bytes_okb l = true -> bytes_ok l.
@@ -97,3 +153,41 @@ Example ex_cmap4_builds : exists ix,
   new_cmap4 [66; 65535] [65; 65535] [0; 1] [4; 0] [0;7; 0;9] = Ok [mkEntry16 66 65 0 (Some ix); mkEntry16 65535 65535 1 None]
   /\ ix = [7; 9] /\ resolved_count [mkEntry16 66 65 0 (Some ix); mkEntry16 65535 65535 1 None] = 2.
 Proof. eexists; repeat split; vm_compute; reflexivity. Qed.
+
+(* a 'name' table with one Microsoft/Unicode record "Hi" (UTF-16) and one custom-platform record "ab" *)
+Definition ex_name : list Z :=
+  [0;0; 0;2; 0;30;  0;3; 0;1; 4;9; 0;1; 0;4; 0;0;   0;4; 0;0; 0;0; 0;2; 0;2; 0;4;   0;72; 0;105; 97;98].
+Example ex_name_loads : bytes_ok ex_name /\ exists t, name_load_and_decode ex_name = Ok (t, [[72; 105]; [97; 98]])
+  /\ zlen (n_records t) = 2.
+Proof. split; [apply ex_bytes_ok; reflexivity|]. eexists; split; vm_compute; reflexivity. Qed.
+
+(* hhea with 2 long metrics, 3 glyphs: glyph 2 repeats the last advance and has its own side bearing *)
+Definition ex_hhea : list Z := repeat 0 34 ++ [0; 2].
+Example ex_hmtx_loads : bytes_ok ex_hhea /\
+  hmtx_query ex_hhea [1;244; 0;10;  2;88; 0;20;  255;251] 3 2 = Ok (600, -5)
+  /\ hmtx_query ex_hhea [1;244; 0;10;  2;88; 0;20;  255;251] 3 0 = Ok (500, 10)
+  /\ hmtx_query ex_hhea [1;244; 0;10;  2;88; 0;20;  255;251] 3 3 = Ok (0, 0).
+Proof. split; [apply ex_bytes_ok; reflexivity|]. repeat split; vm_compute; reflexivity. Qed.
+
+(* format 12: one group U+1F600..U+1F602 -> glyphs 7..9; format 6: 'A','B' -> 5, 6 *)
+Definition ex_cmap12 : list Z := [0;12; 0;0; 0;0;0;28; 0;0;0;0; 0;0;0;1;  0;1;246;0; 0;1;246;2; 0;0;0;7].
+Definition ex_cmap6 : list Z := [0;6; 0;14; 0;0; 0;65; 0;2; 0;5; 0;6].
+Example ex_cmap_lookups : bytes_ok ex_cmap12 /\ bytes_ok ex_cmap6 /\
+  cmap_sub_lookup ex_cmap12 128513 = Ok (Some 8) /\ cmap_sub_lookup ex_cmap12 128515 = Ok None
+  /\ cmap_sub_lookup ex_cmap6 66 = Ok (Some 6) /\ cmap_sub_lookup ex_cmap6 67 = Ok None
+  /\ exists gs, parse_cmap_groups ex_cmap12 = Ok gs /\ zlen gs = 1.
+Proof.
+  split; [apply ex_bytes_ok; reflexivity|]. split; [apply ex_bytes_ok; reflexivity|].
+  repeat split; try (vm_compute; reflexivity). eexists; split; vm_compute; reflexivity.
+Qed.
+
+(* format 4: segments 3..5 -> [10;11;12] and 9..9 without values (null offset); format 2 and format 8 with a wrapping end *)
+Example ex_aat_classes :
+  lookup_wf (L8 65534 [7; 8; 9]) /\
+  aat_class (L4 [mkSeg4 5 3 [10; 11; 12]; mkSeg4 9 9 []]) 4 = Ok (Some 11)
+  /\ aat_class (L4 [mkSeg4 5 3 [10; 11; 12]; mkSeg4 9 9 []]) 9 = Ok None
+  /\ aat_class (L2 [mkSeg2 5 3 1; mkSeg2 9 7 2]) 8 = Ok (Some 2)
+  /\ aat_class (L2 [mkSeg2 5 3 1; mkSeg2 9 7 2]) 6 = Ok None
+  /\ aat_class (L8 65534 [7; 8; 9]) 65535 = Ok None
+  /\ aat_class (L8 3 [7; 8; 9]) 5 = Ok (Some 9).
+Proof. split; [cbn; lia|]. repeat split; vm_compute; reflexivity. Qed.
